@@ -195,7 +195,9 @@ Definition ex_sc : scene :=
                [Some 128; Some 136; Some 144; Some 152; Some 160]]
           (Some [[false; false; false; false; false]; [false; false; false; false; false];
                  [false; false; false; false; false]; [true; false; false; false; false]])
-          (Some [[8; 8; 8; 8; 8]; [8; 8; 8; 8; 8]; [8; 8; 8; 8; 8]; [8; 8; 8; 8; 8]]) false.
+          (* error map: NaN at the NaN data pixel (2, 0) and at the masked pixel (3, 0): ignored by sum_err *)
+          (Some [[Some 8; Some 8; Some 8; Some 8; Some 8]; [Some 8; Some 8; Some 8; Some 8; Some 8];
+                 [None; Some 8; Some 8; Some 8; Some 8]; [None; Some 8; Some 8; Some 8; Some 8]]) false.
 Definition ex_a : aper :=
   mkaper (mkbox (-1) 2 1 4) [[0; 1; 0]; [1; 1; 1]; [0; 1; 0]] [[1; 2; 1]; [2; 4; 2]; [1; 2; 1]]
          (Some [[false; true]; [true; false]; [true; true]])      (* cutout = rows 1..3, columns 0..1 *)
